@@ -12,77 +12,42 @@ open FinVerif FinVerif.Model.C07 FinVerif.Spec.C07 FinVerif.Lemmas.C07
 
 /-! ### Discount-curve pricing -/
 
-/-- C07: the coupon loop of `dirty_price_from_discount_curve` is a sum (induction, any schedule length):
-it adds `cf·df` for exactly the dates after settlement and leaves `df` at the last such date. -/
-theorem curveLoop_eq_sum (settle : Int) (cf : ℝ) (l : List (Int × ℝ)) (px df : ℝ) :
-    curveLoop settle cf l (px, df) = (px + flowSum settle cf l, lastDfAfter settle l df) :=
-  curveLoop_eq_sum_aux settle cf l px df
+/-- C07: the coupon loop of `dirty_price_from_discount_curve` is a sum (induction, any schedule length,
+increasing dates): it adds `cf·df` for exactly the dates after settlement — the NEXT coupon multiplied by
+`pay_first_cpn` — and leaves `df` at the last such date. -/
+theorem curveLoop_eq_sum (settle : Int) (exDiv : Bool) (cf : ℝ) (l : List (Int × ℝ)) (px df : ℝ)
+    (hs : (l.map (·.1)).Pairwise (· < ·)) :
+    curveLoop settle cf (payFirst exDiv) ((l.map (·.1)).find? (fun d => decide (d > settle))) l (px, df)
+      = (px + curveFlows settle exDiv cf l false, lastDfAfter settle l df) :=
+  curveLoop_eq_flows settle exDiv cf l px df hs
 
-/-- The full statement: the price from a curve is the PV of the flows the buyer receives (next coupon
-excluded when ex-dividend), for every schedule. `sched` = coupon dates after the issue date with their
-discount factors, `first` = the issue-date entry. -/
-def PriceFromCurveEqPV : Prop :=
-  ∀ (first : Int × ℝ) (sched : List (Int × ℝ)) (settle : Int) (exDiv : Bool) (dfSettle c f : ℝ),
-    sched ≠ [] → (∀ x ∈ sched.getLast?, x.1 > settle) →
-    dirtyPriceFromCurve (first :: sched) settle exDiv dfSettle c f
-      = .ok (priceOnCurve sched settle exDiv dfSettle c f)
-
-/-- C07 price_from_curve_eq_pv: `dirty_price_from_discount_curve` = Σ flows × df / df(settle) × par, for
-every schedule length, provided the bond is not ex-dividend or settlement is in the FIRST coupon
-period (the code applies `pay_first_cpn` to `cpn_dts[1]`, not to the next coupon). -/
-theorem price_from_curve_eq_pv_partial
+/-- C07 price_from_curve_eq_pv (full statement, true since fix dd7e86d): `dirty_price_from_discount_curve` =
+Σ (flows the buyer receives) × df / df(settle) × par for every schedule with increasing coupon dates whose
+last date is after settlement, ex-dividend or not, in any coupon period. `sched` = coupon dates after the
+issue date with their discount factors, `first` = the issue-date entry. -/
+theorem price_from_curve_eq_pv
     (first : Int × ℝ) (sched : List (Int × ℝ)) (settle : Int) (exDiv : Bool) (dfSettle c f : ℝ)
-    (hne : sched ≠ []) (hlast : ∀ x ∈ sched.getLast?, x.1 > settle)
-    (hx : exDiv = false ∨ ∀ x ∈ sched.head?, x.1 > settle) :
+    (hne : sched ≠ []) (hinc : (sched.map (·.1)).Pairwise (· < ·))
+    (hlast : ∀ x ∈ sched.getLast?, x.1 > settle) :
     dirtyPriceFromCurve (first :: sched) settle exDiv dfSettle c f
       = .ok (priceOnCurve sched settle exDiv dfSettle c f) := by
   cases sched with
   | nil => exact absurd rfl hne
   | cons h t =>
-    obtain ⟨d1, df1⟩ := h
-    simp only [dirtyPriceFromCurve, priceOnCurve]
-    by_cases hd : d1 > settle
-    · -- settlement in the first coupon period: the first coupon IS the next coupon
-      simp only [if_pos hd, curveLoop_eq_sum_aux]
-      congr 2
-      have hL : lastDfAfter settle t df1 = lastDf ((d1, df1) :: t) := by
-        have := lastDfAfter_eq_lastDf settle ((d1, df1) :: t) 1 (by simp) hlast
-        simpa [lastDfAfter, hd] using this
-      rw [hL]
-      congr 1
-      cases exDiv with
-      | false => simp [curveFlows, hd, payFirst, curveFlows_seen]
-      | true => simp [curveFlows, hd, payFirst, curveFlows_seen]
-    · -- settlement later: only allowed here when not ex-dividend
-      have hex : exDiv = false := by
-        rcases hx with h | h
-        · exact h
-        · exact absurd (by simpa using h (d1, df1)) hd
-      subst hex
-      simp only [if_neg hd, curveLoop_eq_sum_aux]
-      congr 2
-      have hL : lastDfAfter settle t 1 = lastDf ((d1, df1) :: t) := by
-        have := lastDfAfter_eq_lastDf settle ((d1, df1) :: t) 1 (by simp) hlast
-        simpa [lastDfAfter, hd] using this
-      rw [hL]
-      congr 1
-      simp [curveFlows, hd, curveFlows_noexdiv]
+    have hL := lastDfAfter_eq_lastDf settle (h :: t) 1 (by simp) hlast
+    have hloop := curveLoop_eq_flows settle exDiv (c / f) (h :: t) 0 1 hinc
+    simp only [dirtyPriceFromCurve, priceOnCurve, ncdDate, List.map_cons, List.tail_cons]
+    simp only [List.map_cons] at hloop
+    rw [hloop, hL]
+    simp
 
-/-- C07 (known finding `C07/curve-price-exdiv-later-period`): three coupon dates 10, 20, 30 after issue at 0,
-settlement at day 19 inside the ex-dividend window of the coupon at 20, flat df = 1, coupon 1 per
-period: the buyer receives the coupon at 30 and the principal (PV 2 per unit), the code returns 3. -/
-theorem curve_price_exdiv_later_period :
-    dirtyPriceFromCurve [((0 : Int), (1 : ℝ)), (10, 1), (20, 1), (30, 1)] 19 true 1 1 1
-      ≠ .ok (priceOnCurve [((10 : Int), (1 : ℝ)), (20, 1), (30, 1)] 19 true 1 1 1) := by
-  simp only [dirtyPriceFromCurve, priceOnCurve, curveLoop, curveFlows, lastDf, payFirst]
-  intro h
-  have h' := Except.ok.inj h
-  norm_num at h'
-
-theorem price_from_curve_full_statement_fails : ¬ PriceFromCurveEqPV := by
-  intro H
-  exact curve_price_exdiv_later_period
-    (H (0, 1) [(10, 1), (20, 1), (30, 1)] 19 true 1 1 1 (by simp) (by simp))
+/-- C07 (fixed dd7e86d; was the witness of `C07/curve-price-exdiv-later-period`): three coupon dates 10, 20,
+30 after issue at 0, settlement at day 19 inside the ex-dividend window of the coupon at 20, flat df = 1,
+coupon 1 per period: the buyer receives the coupon at 30 and the principal — 2 per unit, 200 per 100. -/
+theorem curve_price_exdiv_later_period_fixed :
+    dirtyPriceFromCurve [((0 : Int), (1 : ℝ)), (10, 1), (20, 1), (30, 1)] 19 true 1 1 1 = .ok 200 := by
+  rw [price_from_curve_eq_pv (0, 1) [(10, 1), (20, 1), (30, 1)] 19 true 1 1 1 (by simp) (by simp) (by simp)]
+  norm_num [priceOnCurve, curveFlows, lastDf]
 
 /-! ### Position of settlement in the schedule (integer logic, any schedule) -/
 
@@ -226,26 +191,15 @@ theorem zero_accrued_endpoints (den issuePrice face : ℝ) (hden : den ≠ 0) :
   · simp [zeroAccrued]
   · simp only [zeroAccrued]; field_simp
 
-/-- The full statement for the zero-coupon bond: its price on a curve is the discounted principal per
-100 face. -/
-def ZeroCurvePriceEqPV : Prop :=
-  ∀ dfMat dfSettle : ℝ, zeroDirtyFromCurve dfMat dfSettle = dfMat / dfSettle * 100
-
-/-- C07 (known finding `C07/zero-curve-price-par-squared`): as coded the zero-coupon bond's price from a
-curve carries the par amount twice: flat curve df = 1 gives 10000, not 100. -/
-theorem zero_curve_price_par_squared : zeroDirtyFromCurve (1 : ℝ) 1 = 10000 := by
-  norm_num [zeroDirtyFromCurve]
-
-theorem zero_curve_full_statement_fails : ¬ ZeroCurvePriceEqPV := by
-  intro H
-  have := H 1 1
-  rw [zero_curve_price_par_squared] at this
-  norm_num at this
-
-/-- C07: what the code does compute is exactly `par` times the right number. -/
-theorem zero_curve_price_as_coded (dfMat dfSettle : ℝ) :
-    zeroDirtyFromCurve dfMat dfSettle = 100 * (dfMat / dfSettle * 100) := by
+/-- C07 (full statement, true since fix 211a9f6; was `C07/zero-curve-price-par-squared`): the zero-coupon
+bond's price on a curve is the discounted principal per 100 face. -/
+theorem zero_curve_price_eq_pv (dfMat dfSettle : ℝ) :
+    zeroDirtyFromCurve dfMat dfSettle = dfMat / dfSettle * 100 := by
   simp only [zeroDirtyFromCurve]; ring
+
+/-- C07: on a flat curve with df = 1 the zero-coupon bond is worth par. -/
+theorem zero_curve_price_flat : zeroDirtyFromCurve (1 : ℝ) 1 = 100 := by
+  norm_num [zeroDirtyFromCurve]
 
 /-- sum of annuity flows × df -/
 def annuitySum (cpn : ℝ) : List (ℝ × ℝ) → ℝ
